@@ -84,7 +84,9 @@ def batch_traits(rng, seed, n_traits):
     for k in range(n_traits):
         trng = random.Random(rng.getrandbits(64))
         traits.append(gen.gen_trait(trng, trait_name(k), f"t{k}", tindex=k))
-    if n_traits < 2 * len(MUST_FEATURES):
+    if n_traits < len(MUST_FEATURES) + 5:
+        # (was `2 * len(MUST_FEATURES)`: once the list had grown to 11 entries the 20 traits of the
+        # quick tier fell below it and nothing was forced there any more - found in round 11)
         return traits
     taken = set()
     for f in MUST_FEATURES:
